@@ -8,6 +8,7 @@ import Driver.Player
 import Driver.Seek
 import Driver.Vgm
 import Driver.Conv
+import Driver.Opt
 import Driver.Wave
 import Driver.MdsData
 import Driver.Tags
@@ -21,6 +22,7 @@ def allHandlers : List Handler :=
   ++ SeekD.handlers
   ++ VgmD.handlers
   ++ ConvD.handlers
+  ++ OptD.handlers
   ++ WaveD.handlers
   ++ MdsDataD.handlers
   ++ TagsD.handlers
